@@ -86,6 +86,21 @@ class ReturnedError(Exception):
     """an exception object that f RETURNS as an ordinary value (never raised)"""
 
 
+class Hostile:
+    """a result object that refuses to be compared, hashed, measured or tested for truth: a map only has to hand it over"""
+    __slots__ = ('x',)
+
+    def __init__(self, x):
+        self.x = x
+
+    def __repr__(self):
+        return f'Hostile({self.x})'
+
+    def _no(self, *a, **k):
+        raise TypeError('result objects are opaque to the map')
+    __eq__ = __ne__ = __lt__ = __le__ = __gt__ = __ge__ = __bool__ = __len__ = __hash__ = __iter__ = _no
+
+
 def make_out(kind):
     """element -> output; every output identifies its element; kinds other than `tuple` are values a map must pass through untouched"""
     if kind == 'exc':
@@ -96,6 +111,14 @@ def make_out(kind):
         return lambda x: {'x': x, 'h': out_of(x)[0]}           # not orderable
     if kind == 'falsy':
         return lambda x: [0, '', [], False, 0.0][x % 5] if x % 2 else out_of(x)
+    if kind == 'array':
+        import numpy as np
+        return lambda x: np.array([x, out_of(x)[0], x % 7])   # ==, bool(), < are element-wise / ambiguous
+    if kind == 'series':
+        import pandas as pd
+        return lambda x: pd.Series([x, out_of(x)[0]], index=['x', 'h']) if x % 2 else pd.DataFrame({'x': [x, x + 1], 'h': [out_of(x)[0], 0]})
+    if kind == 'hostile':
+        return lambda x: Hostile(x)
     return out_of
 
 
@@ -235,6 +258,13 @@ def run_once(cfg, prefix):
     inp = elems if cfg.get('input', 'list') == 'list' else (x for x in elems)
     if cfg.get('input') == 'tuple':
         inp = tuple(elems)
+    elif cfg.get('input') == 'iter':
+        inp = iter(elems)
+    elif cfg.get('input') == 'map':
+        inp = map(lambda v: v, elems)
+    extra = {}
+    if cfg.get('total'):
+        extra['total'] = len(elems)          # the documented size hint for the progress bar, given exactly
     elif cfg.get('input') in ('np', 'series', 'index', 'dict', 'range'):
         # iterables with their own idea of truth / equality
         import numpy as np
@@ -254,12 +284,12 @@ def run_once(cfg, prefix):
     try:
         if cfg['impl'] == 'threading':
             result = tthreading.parallel_map(ctl.f, inp, threads=threads, sort=cfg.get('sort', True),
-                                             use_tqdm=cfg.get('tqdm', False), chunksize=chunksize)
+                                             use_tqdm=cfg.get('tqdm', False), chunksize=chunksize, **extra)
         elif cfg['impl'] == 'starmap':
             result = tthreading.parallel_starmap(lambda a, b: ctl.f(a), [(x, 0) for x in xs], threads=threads,
-                                                 sort=cfg.get('sort', True), use_tqdm=False, chunksize=chunksize)
+                                                 sort=cfg.get('sort', True), use_tqdm=False, chunksize=chunksize, **extra)
         else:
-            result = titer.parallel_map(ctl.f, inp, threads=threads)
+            result = titer.parallel_map(ctl.f, inp, threads=threads, **extra)
     except HangTimeout:
         hung = True
     except BaseException as e:  # noqa
@@ -297,6 +327,10 @@ def judge(cfg, ob, res: CaseResult):
     res.count('input_kind_' + cfg.get('input', 'list'))
     if cfg.get('none_at') is not None:
         res.count('inputs_with_a_none_element')
+    if cfg.get('total'):
+        res.count('runs_with_total_hint')
+        if cfg.get('input') in ('gen', 'iter', 'map'):
+            res.count('runs_with_total_hint_on_one_shot_input')
     out = make_out(cfg.get('out', 'tuple'))
     expect = [out(x) for x in xs]
     if cfg.get('out', 'tuple') != 'tuple':
@@ -463,7 +497,7 @@ def cases(tier, seed):
                         for sort in (True, False):
                             enum_cfgs.append({'impl': impl, 'n': n, 'threads': threads, 'chunk': chunk, 'sort': sort})
                             if n == 3:
-                                for out in ('exc', 'none', 'dict'):
+                                for out in ('exc', 'none', 'dict', 'array', 'series', 'hostile'):
                                     enum_cfgs.append({'impl': impl, 'n': n, 'threads': threads, 'chunk': chunk, 'sort': sort, 'out': out})
     # exceptions under all orders for a few configs
     for impl in ('threading', 'iter'):
@@ -505,6 +539,11 @@ def cases(tier, seed):
             for n, threads in ((1, 1), (1, 3), (2, 2), (0, 2), (0, 1), (5, 3)):
                 odd.append({'impl': impl, 'n': n, 'threads': threads, 'chunk': 2, 'sort': True, 'policy': 'reverse', 'pseed': 1, 'input': kind,
                             'tqdm': False, 'base0': True})
+        # the size hint, on inputs that have no length of their own, around the chunk size
+        for kind in ('gen', 'iter', 'map', 'list', 'tuple', 'range'):
+            for n, chunk, threads in ((3, 1000, 2), (4, 4, 3), (4, 3, 2), (5, 2, 4), (0, 3, 2), (1, 1, 2), (6, 1000, 1)):
+                odd.append({'impl': impl, 'n': n, 'threads': threads, 'chunk': chunk, 'sort': rng.random() < 0.7, 'policy': 'random', 'pseed': n, 'input': kind,
+                            'tqdm': impl == 'threading' and rng.random() < 0.5, 'total': True, 'out': rng.choice(['tuple', 'array', 'hostile'])})
     for i in range(0, len(odd), 12):
         yield {'kind': 'runs', 'cfgs': odd[i:i + 12]}
     # 3. random / adversarial orders on larger inputs
@@ -520,8 +559,9 @@ def cases(tier, seed):
         n = min(n, 40)
         cfg = {'impl': impl, 'n': n, 'threads': threads, 'chunk': chunk,
                'sort': rng.random() < 0.7, 'policy': rng.choice(['random', 'reverse', 'rotate', 'random']),
-               'pseed': rng.randrange(1 << 30), 'input': rng.choice(['list', 'list', 'gen', 'tuple', 'np', 'series', 'index', 'dict', 'range']),
-               'tqdm': rng.random() < 0.2, 'out': rng.choice(['tuple', 'tuple', 'exc', 'none', 'dict', 'falsy'])}
+               'pseed': rng.randrange(1 << 30), 'input': rng.choice(['list', 'list', 'gen', 'tuple', 'np', 'series', 'index', 'dict', 'range', 'iter', 'map']),
+               'tqdm': rng.random() < 0.2, 'out': rng.choice(['tuple', 'tuple', 'exc', 'none', 'dict', 'falsy', 'array', 'series', 'hostile']),
+               'total': rng.random() < 0.3}
         if impl == 'starmap':
             cfg['input'] = 'list'
         if n and rng.random() < 0.2:
